@@ -191,6 +191,9 @@ def owner1(ctx, prog, cfg):
 
     _lr.view2(ctx, prog, cfg, only=("Drain::as_slices", "Drain::as_mut_slices", "CircularBuffer::drop_range"))
     owner1_from(ctx, prog, cfg, "OWNER1")
+    from . import c12 as _c12
+
+    _c12.fromarr2(ctx, prog, cfg, "OWNER1")
 
 
 def owner1_from(ctx, prog, cfg, RULE):
